@@ -441,6 +441,9 @@ def compare_model(expect, outs):
     """Model answers vs what the implementation returned (at return time and at the end of the history)."""
     problems = []
     for exp, out in zip(expect, outs):
+        if not out.get('wf') and exp:
+            problems.append(('hypothesis', 'message object %d does not satisfy the theorems\' hypotheses (integer n_subsets, one value list '
+                             'per subset)' % exp[0]['obj'], {'history': True}, None))
         for e, b, s in zip(exp, out['r'], out['sel']):
             I = e['I']
             if s != sorted(set(I)):
